@@ -575,7 +575,9 @@ class Walker:
     def add_call(self, key, kind, on_this=False, node=None):
         pos = (node or {}).get("_pos", ("", 0, 0))
         c = {"callee": list(key), "kind": kind, "this": bool(on_this), "file": self.tu.rel(pos[0]) if pos[0] else "", "line": pos[1], "col": pos[2],
-             "locks": ["%s::%s" % m for m in self.locks_now()] if on_this else []}
+             "locks": ["%s::%s" % m for m in self.locks_now()] if on_this else [],
+             # mutex members of the caller's `this` syntactically held at the call, whatever the callee's object
+             "scope": ["%s::%s" % m for m in self.locks_now()]}
         if c not in self.calls:
             self.calls.append(c)
 
@@ -791,6 +793,8 @@ def tree_hash(repo):
 
 
 HOOKS_EXTRA = {("Logger", "log")}
+MODEL_IFACES = [("MeasurementModel", "measurement_model_state"), ("LikelihoodModel", "likelihood_model_state"),
+                ("ParticleSetInitialization", "initialization_state")]
 ESC_RET = re.compile(r"(&|\*|\bEigen::(Ref|Map|Block)\s*<[^()]*>)\s*(const\s*)?$")
 
 
@@ -929,6 +933,7 @@ def merge(res):
 
     # call edges, virtual calls expanded over the hierarchy
     calls, sites, site_pos = [], [], []
+    scope_sites = {}
     for k, b in bodies.items():
         for c in b["calls"]:
             callee = tuple(c["callee"])
@@ -960,6 +965,8 @@ def merge(res):
                 if e not in calls:
                     calls.append(e)
                 sites.append((k, t, kd, bool(c.get("this")), tuple(c.get("locks", []))))
+                sk = (k, t, kd)
+                scope_sites[sk] = set(c.get("scope", [])) if sk not in scope_sites else (scope_sites[sk] & set(c.get("scope", [])))
                 if c.get("line"):
                     site_pos.append((k, t, kd, bool(c.get("this")), c.get("file", ""), c["line"], c.get("col", 0)))
 
@@ -1005,22 +1012,47 @@ def merge(res):
     # site, with the locks in scope there: a hook invoked from a controller command then conflicts with the
     # filtering thread's own invocations like any other unsynchronised member.
     hooks = {k for k, m in methods.items() if (m["cls"] == "FilteringAlgorithm" and m["pure"]) or (k[0], k[1]) in HOOKS_EXTRA}
-    hooks |= {k for k in methods if any((h[1], h[2]) == (k[1], k[2]) and k[0] in desc.get(h[0], []) for h in list(hooks))}
-    hook_sites = [sp for sp in site_pos if sp[1] in hooks and sp[2] in ("direct", "virtual")]
-    if hook_sites:
-        classes.setdefault("user", {"bases": [], "fields": [("hook_state", "plain", "state of the user's filter touched by its hooks", 0)],
-                                    "methods": {}, "file": "", "line": 0})
+    # model interfaces implemented by user code and called by the filtering thread in every step: the pure virtual
+    # functions of MeasurementModel (freeze, measure, predictedMeasure, innovation), LikelihoodModel::likelihood and
+    # ParticleSetInitialization::initialize.  Each call is a write to the pseudo-member `user::<interface>_state`
+    # at the call site, so that a controller command that reaches such a call (e.g. skip() freezing the measurement
+    # model) conflicts with the filtering thread's own calls whatever the user's model looks like.
+    hook_groups = [("hook_state", "state of the user's filter touched by its hooks", hooks)]
+    for cls_name, fld in MODEL_IFACES:
+        hs = {k for k, m in methods.items() if m["cls"] == cls_name and m["pure"]}
+        hook_groups.append((fld, "state of the user's %s touched by its pure virtual functions" % cls_name, hs))
+    lockmap = None
+    for fld, descr, hs in hook_groups:
+        hs = set(hs)
+        hs |= {k for k in methods if any((h[1], h[2]) == (k[1], k[2]) and k[0] in desc.get(h[0], []) for h in list(hs))}
+        hook_sites = [sp for sp in site_pos if sp[1] in hs and sp[2] in ("direct", "virtual")]
+        if not hook_sites:
+            continue
+        classes.setdefault("user", {"bases": [], "fields": [], "methods": {}, "file": "", "line": 0})
+        classes["user"]["fields"].append((fld, "plain", descr, 0))
         anc.setdefault("user", [])
-        fields.append({"cls": "user", "name": "hook_state", "kind": "plain", "type": "(pseudo-member)", "file": "", "line": 0})
-        fid[("user", "hook_state")] = len(fields) - 1
-        lockmap = {}
-        for (a, b, kd, th, lk) in sites:
-            lockmap.setdefault((a, b, kd, th), set()).update(lk)
+        fields.append({"cls": "user", "name": fld, "kind": "plain", "type": "(pseudo-member)", "file": "", "line": 0})
+        fid[("user", fld)] = len(fields) - 1
+        if lockmap is None:
+            lockmap = {}
+            for (a, b, kd, th, lk) in sites:
+                key = (a, b, kd, th)
+                # several call sites of the same callee in one function: only locks in scope at all of them
+                lockmap[key] = set(lk) if key not in lockmap else (lockmap[key] & set(lk))
+        # The pseudo-object behind a model interface is the model *owned* (unique_ptr) by the object whose member
+        # function makes the call: the row counts as an access through `this` of that function, so that mutex
+        # members of `this` in scope at the call site (and, through the entry locksets, in every caller on `this`)
+        # are credited — a command that calls into the model under the mutex the filtering thread also takes
+        # around its own calls obeys the discipline.  Hooks are called on `this` anyway.
+        owned = fld != "hook_state"
         for (k, t, kd, th, file, line, col) in hook_sites:
             if k not in bodies:
                 continue
-            nr = {"cls": "user", "field": "hook_state", "acc": "w", "self": bool(th), "kindhint": "plain",
-                  "locks": sorted(lockmap.get((k, t, kd, th), ())) if th else [], "file": file or bodies[k]["file"], "line": line, "col": 0}
+            is_method = bool(k[0]) and k[0] in classes
+            slf = bool(th) or (owned and is_method)
+            nr = {"cls": "user", "field": fld, "acc": "w", "self": slf, "kindhint": "plain",
+                  "locks": sorted(lockmap.get((k, t, kd, th), ()) if th else scope_sites.get((k, t, kd), ())) if slf else [],
+                  "file": file or bodies[k]["file"], "line": line, "col": 0}
             if nr not in bodies[k]["rows"]:
                 bodies[k]["rows"].append(nr)
     accesses, via_rows = [], []
@@ -1051,6 +1083,9 @@ def merge(res):
     return {"fields": fields, "methods": mlist, "accesses": accesses, "accesses_via": via_rows, "thread_ops": thread_ops,
             "calls": [{"caller": a, "callee": b, "kind": kd} for a, b, kd in clist],
             "call_sites": [{"caller": a, "callee": b, "kind": kd, "this": th, "locks": list(lk)} for a, b, kd, th, lk in slist],
+            "scope_locks": [{"caller": mid[a], "callee": mid[b], "kind": kd,
+                             "locks": sorted(fid[tuple(l.split("::", 1))] for l in lk if tuple(l.split("::", 1)) in fid)}
+                            for (a, b, kd), lk in sorted(scope_sites.items(), key=lambda x: (mid[x[0][0]], mid[x[0][1]], x[0][2])) if lk],
             "classes": {c: {"bases": classes[c]["bases"], "ancestors": anc[c]} for c in sorted(classes)}}
 
 
@@ -1131,7 +1166,68 @@ def apply_entry_locks(facts, roots):
         else:
             a["locks"] = list(a["locks_syntactic"])
     facts["entry_locks"] = {M[i]["qual"]: sorted(e) for i, e in entry.items() if e}
+    guard_model_calls(facts, roots)
     return facts
+
+
+def guard_model_calls(facts, roots):
+    """A control command that calls into a user model object *under a mutex of the calling object* (every
+    controller-reachable row of a model pseudo-member carries a non-empty effective lockset).  Whether the
+    filtering thread's own calls of that interface take the same mutex cannot be decided from the table: the
+    pseudo-member is one location per *interface* for all model objects of all prediction / correction classes
+    (a Gaussian correction's measurement model and a particle-filter correction's are the same pseudo-member),
+    and the filtering thread also calls the interface from free functions and from other owner classes whose
+    mutexes are different members.  Such rows are therefore taken out of the table and listed in
+    facts["guarded_model_calls"]: the check records them (note, not alarm) and ThreadSanitizer decides — a race
+    reported at those call sites / in the model is then an unpredicted report, i.e. a violation with a replay.
+    A controller row *without* a lock stays in the table and makes the pseudo-member undisciplined as before."""
+    F, M, A, C = facts["fields"], facts["methods"], facts["accesses"], facts["calls"]
+    S = {i for i, m in enumerate(M) if m["name2"] in roots.get("controller", ())}
+    changed = True
+    while changed:
+        changed = False
+        for c in C:
+            if c["kind"] != "spawn" and c["caller"] in S and c["callee"] not in S:
+                S.add(c["callee"]); changed = True
+    # Calls made by a controller-reachable function on an object other than `this` while a mutex of `this` is held
+    # at every such call site (syntactic lockset ∪ entry lockset of the caller): the lock belongs to the caller's
+    # object, the members touched behind the call belong to the callee's object — the lockset discipline as
+    # formalised (`Justified`: the row's locks are held on the object whose member is accessed; necessary, see
+    # `same_object_necessary`) cannot credit it, although it does protect the callee when the callee is owned
+    # exclusively by the caller and the filtering thread takes the same mutex around its calls.  These edges are
+    # removed from the call graph and listed in facts["guarded_calls"]; what lies behind them is judged by
+    # ThreadSanitizer alone (a race there is an unpredicted report = violation with replay).
+    by_pair = {}
+    for cs in facts.get("call_sites", []):
+        by_pair.setdefault((cs["caller"], cs["callee"], cs["kind"]), []).append(cs)
+    scope = {(x["caller"], x["callee"], x["kind"]): set(x["locks"]) for x in facts.get("scope_locks", [])}
+    elocks = {}
+    for i, m in enumerate(M):
+        elocks[i] = set(facts.get("entry_locks", {}).get(m["qual"], ()))
+    gcalls = []
+    for (a, b, kd), lst in by_pair.items():
+        held = scope.get((a, b, kd), set()) | elocks.get(a, set())
+        if a in S and kd in ("direct", "virtual") and held and all(not cs["this"] for cs in lst):
+            gcalls.append((a, b, kd, sorted(held)))
+    if gcalls:
+        gs = {(a, b, kd) for a, b, kd, _ in gcalls}
+        facts["calls"][:] = [c for c in C if (c["caller"], c["callee"], c["kind"]) not in gs]
+        facts["call_sites"][:] = [c for c in facts["call_sites"] if (c["caller"], c["callee"], c["kind"]) not in gs]
+    facts["guarded_calls"] = [{"caller": M[a]["qual"], "callee": M[b]["qual"], "kind": kd,
+                               "locks": [F[l]["cls"] + "::" + F[l]["name"] for l in held]} for a, b, kd, held in gcalls]
+    names = {fld for _, fld in MODEL_IFACES}
+    guarded = []
+    for fi, f in enumerate(F):
+        if f["cls"] != "user" or f["name"] not in names:
+            continue
+        rows = [a for a in A if a["field"] == fi and a["meth"] in S]
+        if rows and all(a["self"] and a["locks"] for a in rows):
+            for a in rows:
+                guarded.append({"interface": f["name"], "function": M[a["meth"]]["qual"], "file": a["file"], "line": a["line"],
+                                "locks": [F[l]["cls"] + "::" + F[l]["name"] for l in a["locks"]]})
+            facts["accesses"][:] = [a for a in A if not (a["field"] == fi and a["meth"] in S)]
+            A = facts["accesses"]
+    facts["guarded_model_calls"] = guarded
 
 
 def discipline(facts, roots):
